@@ -34,6 +34,7 @@ package contracts
 //@ func slices.Clone
 //@   trusted documented behaviour of slices.Clone: a new slice holding the same elements
 //@   ensures fresh(result) && len(result) == len(s) && forall k in 0..len(s) :: result[k] == s[k]
+//@   ensures forall k in 0..len(s) :: s[k] == result[k]
 
 //@ func unicode.IsLetter
 //@   trusted unicode.IsLetter agrees with [A-Za-z] on ASCII
